@@ -197,21 +197,12 @@ def check(run):
             w = json.load(open(os.path.join(wdir, f)))
             (dscn if "dra" in w else scenarios).append(w)
             nwit += 1
-    # 3. the real scheduler
-    files, sums, hook = run_driver(run, scenarios, "c17", procs)
-    dfiles, dsums, dhook = run_driver(run, dscn, "c17dra", procs)
+    # 3./4. the real scheduler + trace validation, in batches (bounds the scratch space: validated trace files without findings are removed)
+    sums, stats, hook = replay_validate(run, scenarios, "c17", "Reservations_Trace", procs, dev, hot_resv)
+    dsums, dstats, dhook = replay_validate(run, dscn, "c17dra", "DRA_Trace", procs, dev, hot_dra)
     if not (hook and dhook):
         raise vlib.InfraError("the tree under test does not carry hook H1 (repo-patches/hook-H1.patch): C17 needs the commit-order events")
-    bad = [s for s in sums + dsums if s.get("status") != "ok"]
-    if bad:
-        raise vlib.InfraError("driver could not materialise %d scenarios, e.g. %s" % (len(bad), bad[0]))
-    # 4. trace validation
-    viol = run.validate("Reservations_Trace", "Reservations_Trace.cfg", files, par=4 if dev else None, timeout=3000)
-    viol += run.validate("DRA_Trace", "DRA_Trace.cfg", dfiles, par=4 if dev else None, timeout=3000)
-    note_obs(run, viol)
-    stats, dstats = collect_stats(files), collect_stats(dfiles)
-    nontrivial_cases(run, files, sums)
-    nontrivial_dra(run, dfiles, dsums)
+    note_obs(run, list(run.viol))
     run.samples = [{"scenario": scenarios[0]["name"], "summary": sums[0]}, {"scenario": scenarios[-1]["name"], "summary": sums[-1]},
                    {"scenario": dscn[0]["name"], "summary": dsums[0]}, {"scenario": dscn[-1]["name"], "summary": dsums[-1]}]
     run.extra_cov.update({"halves": "reservations + DRA",
@@ -243,17 +234,46 @@ def check(run):
     ]
 
 
-def nontrivial_dra(run, files, sums):
-    hot = set()
-    for f in files:
-        name = None
-        for line in open(f):
-            if '"e":"Cfg"' in line:
-                name = json.loads(line).get("name")
-            elif '"e":"Results"' in line and '"dra":[{' in line:
-                hot.add(name)
-    for s in sums:
-        run.note_case(s["name"], s["name"] in hot)
+def hot_resv(line):
+    """a scenario counts as non-trivial when one of its Sched events carries a held reservation or a reserved-offering error"""
+    return '"e":"Sched"' in line and ('"err":"reserved"' in line or '"reserved":["' in line)
+
+
+def hot_dra(line):
+    """... when the allocator allocated at least one claim in the pass"""
+    return '"e":"Results"' in line and '"dra":[{' in line
+
+
+def replay_validate(run, scenarios, tag, spec, procs, dev, hot, batch=20000):
+    """run the scenarios through the driver and validate the traces with trace spec `spec`, batch by batch"""
+    sums, stats, hook = [], {}, True
+    for b in range(0, len(scenarios), batch):
+        files, bs, h = run_driver(run, scenarios[b:b + batch], "%s-b%02d" % (tag, b // batch), procs)
+        hook = hook and h
+        bad = [s for s in bs if s.get("status") != "ok"]
+        if bad:
+            raise vlib.InfraError("driver could not materialise %d scenarios, e.g. %s" % (len(bad), bad[0]))
+        viol = run.validate(spec, spec + ".cfg", files, par=4 if dev else None, timeout=3000)
+        for k, v in collect_stats(files).items():
+            stats[k] = stats.get(k, 0) + v
+        hotnames = set()
+        for f in files:
+            name = None
+            for line in open(f):
+                if '"e":"Cfg"' in line:
+                    name = json.loads(line).get("name")
+                elif hot(line):
+                    hotnames.add(name)
+        for s in bs:
+            run.note_case(s["name"], s["name"] in hotnames)
+        sums += bs
+        keep = {v["file"] for v in viol}
+        for f in files:
+            if f not in keep:
+                for x in (f, f + ".viol.json", f + ".tlc.out"):
+                    if os.path.exists(x):
+                        os.remove(x)
+    return sums, stats, hook
 
 
 def note_obs(run, viol):
@@ -277,20 +297,6 @@ def collect_stats(files):
             for k, v in (json.load(open(p)).get("stats") or {}).items():
                 tot[k] = tot.get(k, 0) + int(v)
     return tot
-
-
-def nontrivial_cases(run, files, sums):
-    """a scenario counts as non-trivial when one of its Sched events carries a held reservation or a reserved-offering error"""
-    hot = set()
-    for f in files:
-        name = None
-        for line in open(f):
-            if '"e":"Cfg"' in line:
-                name = json.loads(line).get("name")
-            elif '"e":"Sched"' in line and ('"err":"reserved"' in line or '"reserved":["' in line):
-                hot.add(name)
-    for s in sums:
-        run.note_case(s["name"], s["name"] in hot)
 
 
 def replay(run, path):
